@@ -105,6 +105,9 @@ def hop(fmt, ir, emit_kw=None, parse_kw=None):
     if fmt.startswith("doc_"):
         emit_kw.setdefault("emit_default_doc", True)
         parse_kw.setdefault("emit_default_doc", False)
+        # a None value means "do not pass the argument": the library's own default applies
+        emit_kw = {k: v for k, v in emit_kw.items() if v is not None}
+        parse_kw = {k: v for k, v in parse_kw.items() if v is not None}
         text = cdd.docstring.emit.docstring(deepcopy(ir), docstring_format=fmt[4:], **emit_kw)
         return text, cdd.docstring.parse.docstring(text, **parse_kw)
     src, _node = emit_src(fmt, ir, **emit_kw)
